@@ -2,6 +2,7 @@
 //! (`<kind> <field> <field> ...`), prints one canonical result line per case.
 //! Everything observed is public API of /repo's crates; panics are caught and
 //! reported as `PANIC <message>`.
+mod k_dev;
 mod k_errtab;
 mod k_mm;
 mod k_queue;
@@ -13,6 +14,8 @@ fn dispatch(kind: &str, args: &[&str]) -> String {
     match kind {
         "queue" => k_queue::run(args),
         "errtab" => k_errtab::run(args),
+        "dev" => k_dev::run(args),
+        "devtree" => k_dev::dump_tree(),
         "mm" => k_mm::run(args),
         _ => format!("UNKNOWN-KIND {}", kind),
     }
